@@ -155,7 +155,7 @@ struct ArduinoJsonVerifInspector {
     r.pools = pl.count_;
     r.pool_table_capacity = pl.capacity_;
     if (pl.count_ > pl.capacity_) r.error = "pool count exceeds pool table capacity";
-    if ((size_t)pl.capacity_ > (size_t)pl.maxPools && r.error.empty()) r.error = "pool table capacity exceeds maxPools";
+    if ((size_t)pl.count_ > max_pools() && r.error.empty()) r.error = "more pools than the slot id type can address (count exceeds maxPools)";
     if ((pl.pools_ == pl.preallocatedPools_) && pl.capacity_ != ARDUINOJSON_INITIAL_POOL_COUNT && r.error.empty())
       r.error = "inline pool table with a capacity other than INITIAL_POOL_COUNT";
     size_t usage = 0;
@@ -220,11 +220,12 @@ struct ArduinoJsonVerifInspector {
         }
         r.string_nodes++;
         r.string_bytes += ArduinoJson::detail::sizeofString(n->length);
-        if (n->data[n->length] != 0) {
+        size_t u = w.users.count(n) ? w.users[n] : 0;
+        // raw nodes (bin/ext, serialized()) are sized byte blocks; strings must be terminated
+        if (!w.raw_user.count(n) && u > 0 && n->data[n->length] != 0) {
           r.error = "string node not NUL-terminated at its length";
           break;
         }
-        size_t u = w.users.count(n) ? w.users[n] : 0;
         if (n->references > r.max_refs) r.max_refs = n->references;
         if (u == 0 && !allow_leaks) {
           r.error = "string node " + cs_quote(std::string(n->data, n->length)) + " has no user";
@@ -283,7 +284,7 @@ struct ArduinoJsonVerifInspector {
     return p.usage_ >= p.capacity_;
   }
   static size_t slot_size() { return RM::slotSize; }
-  static size_t max_pools() { return (size_t)NUL / ARDUINOJSON_POOL_CAPACITY + 1; }
+  static size_t max_pools() { return (size_t)NUL / ARDUINOJSON_POOL_CAPACITY + ((size_t)NUL % ARDUINOJSON_POOL_CAPACITY ? 1 : 0); }
 };
 
 namespace lib {
